@@ -5,7 +5,7 @@
 (*                                                                         *)
 (* Time unit: 1 tick = 10 microseconds (ms x100).                          *)
 (* file.off    time of beat 0 in ticks (= -#OFFSET)                        *)
-(* file.bpms   seq of [p48 (beat x48), bl (ticks per beat)] sorted by p48  *)
+(* file.bpms   seq of [p (beat x4800), bl (ticks per beat)] sorted by p    *)
 (* file.charts seq of [type, desc, diff, meter, radar, keys, measures]     *)
 (*             measures: seq of seq of rows, a row is a seq of 1-char strs *)
 (* A chart projection: [hits, holds, rolls, mines, lifts, fakes, keysounds, *)
@@ -17,18 +17,21 @@ EXTENDS Integers, Sequences, FiniteSets
 Abs(x) == IF x < 0 THEN -x ELSE x
 Max2(a, b) == IF a > b THEN a ELSE b
 
+(* A/4800 beats at bl ticks per beat, without leaving 32 bits *)
+Mul4800(A, bl) == (A \div 4800) * bl + ((A % 4800) * bl) \div 4800
+
 (* time of tempo change k *)
 RECURSIVE TStart(_, _, _)
 TStart(bpms, off, k) ==
-    IF k = 1 THEN off ELSE TStart(bpms, off, k-1) + ((bpms[k].p48 - bpms[k-1].p48) * bpms[k-1].bl) \div 48
+    IF k = 1 THEN off ELSE TStart(bpms, off, k-1) + Mul4800(bpms[k].p - bpms[k-1].p, bpms[k-1].bl)
 
 (* absolute beat W + num/den  ->  ticks *)
 SegOf(bpms, W, num, den) ==
-    LET S == { k \in DOMAIN bpms : bpms[k].p48 * den <= (W * den + num) * 48 }
+    LET S == { k \in DOMAIN bpms : bpms[k].p * den <= (W * den + num) * 4800 }
     IN  IF S = {} THEN 1 ELSE CHOOSE k \in S : \A j \in S : j <= k
 BeatToTicks(bpms, off, W, num, den) ==
     LET k == SegOf(bpms, W, num, den)
-    IN  TStart(bpms, off, k) + ((W * 48 - bpms[k].p48) * bpms[k].bl) \div 48 + (num * bpms[k].bl) \div den
+    IN  TStart(bpms, off, k) + Mul4800(W * 4800 - bpms[k].p, bpms[k].bl) + (num * bpms[k].bl) \div den
 BlAt(bpms, W, num, den) == bpms[SegOf(bpms, W, num, den)].bl
 
 (* row r (0-based) of a measure m (0-based) with n rows is at beat 4m + 4r/n *)
@@ -117,5 +120,5 @@ WellFormed(f) ==
       balanced |-> \A i \in DOMAIN f.charts : Balanced(f.charts[i]) ]
 
 (* all tempo changes of the file on measure lines *)
-OnMeasureLines(f) == \A k \in DOMAIN f.bpms : f.bpms[k].p48 % 192 = 0
+OnMeasureLines(f) == \A k \in DOMAIN f.bpms : f.bpms[k].p % 19200 = 0
 =============================================================================
